@@ -8,10 +8,15 @@
     - [C20_index_explicit]: giving a virtual function the [#[index(i)]] it already had;
     - [C20_enum_explicit]: writing enum values that equal the implicit ones.
     "Spelling a number in another base" is below the model (the AST carries the value): it is the
-    lexer's business, checked by C18's correspondence and by this property's monitor.  Replacing an
-    [unknown<N>] gap by an address (or the reverse) and reordering definitions are decided by the
-    monitor (byte comparison of the real outputs) and by C09 for reordering; they have no theorem
-    here, hence the property's claim is partial for those two rewrites. *)
+    lexer's business, checked by C18's correspondence and by this property's monitor.
+    - [C20_gap_is_address] + [C20_naming_ignores_gap_spelling]: replacing an [unknown<N>] gap by an
+      address on the following field (and the reverse): the placement fold ends at the same offset
+      with region lists that differ only in how the unnamed gap region was created, and the naming
+      pass gives both the same name, type, visibility and doc -- so [resolve_regions] yields the
+      same regions.
+    Reordering definitions is decided by the monitor (byte comparison of the real outputs) and, for
+    the resolution part, by C09's order-independence theorem; the emitter's sorting argument is not
+    formalised, hence the property's claim is partial for that rewrite. *)
 From Coq Require Import List NArith ZArith Bool String.
 From PyxisModel Require Import Base Grammar SemTypes Registry Sem PlacementLemmas VftableLemmas RewriteLemmas.
 Import ListNotations.
@@ -38,3 +43,16 @@ Theorem C20_enum_explicit : forall stmts fields di r,
   enum_cases (explicitate stmts 0%Z) (Some 0%Z) O fields di = Ok r.
 Proof. intros. eapply enum_cases_explicit; eauto. Qed.
 Print Assumptions C20_enum_explicit.
+
+(** ** gap <-> address *)
+Theorem C20_gap_is_address : forall R pre g n r post acc0 accp,
+  is_gap g n -> foldM (push_pending R) pre acc0 = Ok accp ->
+  same_result (foldM (push_pending R) (pre ++ (None, g) :: (None, r) :: post) acc0)
+              (foldM (push_pending R) (pre ++ (Some (snd accp + n), r) :: post) acc0).
+Proof. exact gap_is_address_fold. Qed.
+Print Assumptions C20_gap_is_address.
+
+Theorem C20_naming_ignores_gap_spelling : forall R rs1 rs2 s0,
+  Forall2 same_named rs1 rs2 -> name_regions R rs1 s0 = name_regions R rs2 s0.
+Proof. exact name_regions_same_named. Qed.
+Print Assumptions C20_naming_ignores_gap_spelling.
